@@ -60,6 +60,26 @@ type CloneCase struct {
 type JSONCase struct {
 	T hs.Type
 	V hs.WV
+	// Route, when set, restricts the check to one round-trip route ("vm-typeaware",
+	// "vm-typeaware-direct", "vm-builtin", "tree-builtin") or to the comparison of the two
+	// to_json texts ("text"): replay files use it to pin one root cause.
+	Route string `json:",omitempty"`
+}
+
+// jsonRouteOf extracts the route from a failure signature of the json sub-check.
+func jsonRouteOf(f *pk.Failure) string {
+	if f == nil {
+		return ""
+	}
+	if strings.HasPrefix(f.Sig, "json-text-differs") {
+		return "text"
+	}
+	for _, r := range jsonRoutes {
+		if strings.Contains(f.Sig, ":"+r.name+":") {
+			return r.name
+		}
+	}
+	return ""
 }
 
 type JSONProgCase struct {
@@ -1157,6 +1177,9 @@ func checkJSON(c JSONCase) *pk.Failure {
 		if strings.HasSuffix(r.name, "-builtin") && !hasToJSON(v) {
 			continue // only lists, objects and any-objects have to_json
 		}
+		if c.Route != "" && c.Route != r.name && !(c.Route == "text" && strings.HasSuffix(r.name, "-builtin")) {
+			continue
+		}
 		var got hs.Value
 		var text, em string
 		if p := guard(func() { got, text, em = r.run(v, c.T) }); p != "" {
@@ -1168,6 +1191,9 @@ func checkJSON(c JSONCase) *pk.Failure {
 			continue
 		}
 		texts[r.name] = text
+		if c.Route == "text" {
+			continue
+		}
 		if !jsonEq(v, got) {
 			cls := diffClass(canonJSON(v, false), canonJSON(got, false))
 			if !strings.Contains(cls, "kind:") {
@@ -1182,7 +1208,10 @@ func checkJSON(c JSONCase) *pk.Failure {
 		}
 	}
 	// the two libraries' to_json texts: same JSON document?
-	if a, b := texts["vm-builtin"], texts["tree-builtin"]; a != "" && b != "" && a != b {
+	if c.Route == "text" {
+		fails = nil
+	}
+	if a, b := texts["vm-builtin"], texts["tree-builtin"]; a != "" && b != "" && a != b && (c.Route == "" || c.Route == "text") {
 		var x, y interface{}
 		da, db := json.NewDecoder(strings.NewReader(a)), json.NewDecoder(strings.NewReader(b))
 		da.UseNumber()
